@@ -1,22 +1,24 @@
-import BppProofs.Lemmas.Range
+import BppProofs.Props.C20Inst
 import Mathlib.Order.Interval.Finset.Defs
 import Mathlib.Data.Int.Interval
 import Mathlib.Data.Finset.Card
 /-!
 # C20 — total length is the measure of the union
-`MultiRange::totalLength` (sum of the stored lengths) equals the number of integer points of the
-denoted union, for every state satisfying the representation invariant (which `C20.mr_inv` proves
-for every history).
+`MultiRange::totalLength` (a `size_t` accumulator over the stored lengths) equals the number of
+unit cells of the denoted union, for every state satisfying the representation invariant (which
+`C20.mr_inv` proves for every history) — for `int`, for `unsigned` (no `length()` wraps) and for
+`double` with integral end points (the property's universe; the accumulator truncates after
+every addition, see `totalLength_truncates_rat` for what happens outside).
 -/
 namespace Bpp.C20
 open Bpp Bpp.Range Bpp.MultiRange
 
 /-- the finite set of integer points denoted by a list of ranges -/
-def cells : List Range → Finset Int
+def cells : List (Range Int) → Finset Int
   | [] => ∅
   | x :: xs => Finset.Ico x.b x.e ∪ cells xs
 
-theorem mem_cells (m : List Range) (p : Int) : p ∈ cells m ↔ pts m p := by
+theorem mem_cells (m : List (Range Int)) (p : Int) : p ∈ cells m ↔ pts m p := by
   induction m with
   | nil => simp [cells, pts]
   | cons x xs ih =>
@@ -29,11 +31,11 @@ theorem mem_cells (m : List Range) (p : Int) : p ∈ cells m ↔ pts m p := by
       · subst e; exact Or.inl hp
       · exact Or.inr ⟨y, e, hp⟩
 
-/-- **mr_total_length**: the total length is the measure (number of points) of the union -/
-theorem mr_total_length (m : List Range) (h : MultiRange.Inv m) :
-    totalLength m = ((cells m).card : Int) := by
+/-- the sum of the lengths of an ascending list of disjoint ranges is the number of its points -/
+theorem sum_lengths_card (m : List (Range Int)) (h : MultiRange.Inv m) :
+    (m.map Range.length).sum = ((cells m).card : Int) := by
   induction m with
-  | nil => simp [totalLength, cells]
+  | nil => simp [cells]
   | cons x xs ih =>
     have hx := h.1 x (by simp)
     have hxs : MultiRange.Inv xs := ⟨fun y hy => h.1 y (by simp [hy]), (List.pairwise_cons.mp h.2).2⟩
@@ -47,7 +49,7 @@ theorem mr_total_length (m : List Range) (h : MultiRange.Inv m) :
       simp only [Finset.mem_Ico] at hp
       unfold R at this; unfold mem at hpy; omega
     have ih' := ih hxs
-    simp only [totalLength, List.map_cons, List.sum_cons] at ih' ⊢
+    simp only [List.map_cons, List.sum_cons] at ih' ⊢
     rw [cells, Finset.card_union_of_disjoint hdisj, Int.card_Ico]
     simp only [Range.length]
     push_cast
@@ -55,6 +57,57 @@ theorem mr_total_length (m : List Range) (h : MultiRange.Inv m) :
     have : ((x.e - x.b).toNat : Int) = x.e - x.b := Int.toNat_of_nonneg (by omega)
     omega
 
-example : totalLength [⟨1, 3⟩, ⟨3, 5⟩, ⟨7, 9⟩] = 6 := by decide
+/-- **mr_total_length** (`int`): the total length is the measure (number of points) of the union -/
+theorem mr_total_length (m : List (Range Int)) (h : MultiRange.Inv m) (hB : ∀ x ∈ m, x.e < 2 ^ 64) :
+    (MultiRange.totalLength m : Int) = ((cells m).card : Int) := by
+  rw [totalLength_int m h hB, sum_lengths_card m h]
+
+/-- **mr_total_length_uint** (`unsigned`): the same, the coordinates read as natural numbers -/
+theorem mr_total_length_uint (m : List (Range UInt32)) (h : MultiRange.Inv m) :
+    (MultiRange.totalLength m : Int) = ((cells (m.map uintToI)).card : Int) := by
+  rw [totalLength_uint m h, sum_lengths_card _ (inv_uintToI m h)]
+
+/-- **mr_total_length_rat** (`double`, integral end points): the same -/
+theorem mr_total_length_rat (m : List (Range Rat)) (h : MultiRange.Inv m) (hint : ∀ x ∈ m, Integral x)
+    (hB : ∀ x ∈ m, x.e.floor < 2 ^ 64) :
+    (MultiRange.totalLength m : Int) = ((cells (m.map ratToI)).card : Int) := by
+  have hinv : MultiRange.Inv (m.map ratToI) := by
+    have hcast : ∀ a b : Int, ((a : Rat) ≤ b ↔ a ≤ b) ∧ ((a : Rat) < b ↔ a < b) := by
+      intro a b; exact ⟨Rat.intCast_le_intCast, Rat.intCast_lt_intCast⟩
+    refine ⟨?_, ?_⟩
+    · intro y hy
+      simp only [List.mem_map] at hy
+      obtain ⟨x, hx, e⟩ := hy
+      subst e
+      obtain ⟨hb, he⟩ := hint x hx
+      have h1 := h.1 x hx
+      rw [hb, he] at h1
+      have h0 : ((0 : Rat)) = ((0 : Int) : Rat) := by simp
+      rw [h0, (hcast _ _).1, (hcast _ _).2] at h1
+      simpa [ratToI, Rat.floor_intCast] using h1
+    · rw [List.pairwise_map]
+      apply List.Pairwise.imp_of_mem _ h.2
+      intro x y hx hy hxy
+      have h1 := (hint x hx).2
+      have h2 := (hint y hy).1
+      simp only [R, ratToI] at *
+      rw [h1, h2, (hcast _ _).1] at hxy
+      simpa [Rat.floor_intCast] using hxy
+  rw [totalLength_rat m h hint hB, sum_lengths_card _ hinv]
+
+/-- for every history of an `int` multi-range inside the `int` range, the reported total length
+is the number of points of the union of everything added, intersected with every restriction
+applied since (`mr_denotes`), read through `mem_cells` -/
+theorem mr_total_length_history (ops : List (Op Int)) (hok : ∀ o ∈ ops, o.ok)
+    (hfit : ∀ o ∈ ops, ∀ a ∈ o.args, inInt32 a) :
+    (MultiRange.totalLength (run ops) : Int) = ((cells (run ops)).card : Int) ∧
+    ∀ p, p ∈ cells (run ops) ↔ pts (run ops) p := by
+  refine ⟨mr_total_length _ (mr_inv ops hok) ?_, mem_cells _⟩
+  intro x hx
+  have := ((int_no_overflow ops hok hfit).1 x hx).2.1
+  unfold inInt32 at this; omega
+
+example : MultiRange.totalLength [(⟨1, 3⟩ : Range Int), ⟨3, 5⟩, ⟨7, 9⟩] = 6 := by decide
+example : MultiRange.totalLength [(⟨1, 3⟩ : Range UInt32), ⟨3, 5⟩, ⟨7, 9⟩] = 6 := by decide
 
 end Bpp.C20
